@@ -1,7 +1,334 @@
+/-
+  Driver of property C05: every line is answered as `L1 ;; L0` — L1 = the limb-level model
+  (CB/Model/{Shift,Bits}.lean), L0 = what the property demands, computed with plain `Nat`/`Int`
+  arithmetic on the parsed values.
+-/
 import CB.Driver.Util
+import CB.Model.Bits
 namespace CB
+namespace D05
+open CB CB.Shift CB.Bits
 
+def both (l1 l0 : String) : Option String := some (l1 ++ " ;; " ++ l0)
+
+def optHex (o : Option (List Nat)) : String :=
+  match o with
+  | some r => limbsHex r
+  | none => "panic"
+
+/-- value under a ConstCtOption mask: `none` when the mask is false -/
+def ctoptHex (o : List Nat × Nat) : String :=
+  if o.2 = WMAX then limbsHex o.1 else if o.2 = 0 then "none" else s!"badchoice:{natToHex o.2}"
+
+def bitlen0 (x : Nat) : Nat := if x = 0 then 0 else Nat.log2 x + 1
+
+/-- spec: number of trailing zeros of `x` within `bits` bits -/
+def tz0 (bits x : Nat) : Nat := Id.run do
+  if x = 0 then return bits
+  let mut k := 0
+  let mut y := x
+  for _ in [0:bits] do
+    if y % 2 = 1 then break
+    k := k + 1
+    y := y / 2
+  return k
+
+def to0 (bits x : Nat) : Nat := tz0 bits (2 ^ bits - 1 - x)
+
+/-- signed value of an `n`-limb two's complement word -/
+def sval (n x : Nat) : Int := if x ≥ 2 ^ (64 * n - 1) then (x : Int) - (2 ^ (64 * n) : Nat) else x
+/-- two's complement limbs of a signed value -/
+def ofInt (n : Nat) (i : Int) : Nat := (i % ((2 ^ (64 * n) : Nat) : Int)).toNat
+
+def decTok (n : Nat) : String := toString n
+def bitTok (b : Bool) : String := if b then "1" else "0"
+
+/-- `c05.u.*`: args after the op name are `n x …` -/
+def uintOp (op : String) (n x : Nat) (rest : List Nat) : Option String :=
+  let a := toLimbs n x
+  let bits := 64 * n
+  let m := 2 ^ bits
+  let shl0 (s : Nat) := (x * 2 ^ s) % m
+  let shr0 (s : Nat) := x / 2 ^ s
+  match op, rest with
+  | "shl", [s] | "op_shl", [s, _] => both (optHex (ushl a s)) (if s < bits then natToHex (shl0 s) else "panic")
+  | "shr", [s] | "op_shr", [s, _] => both (optHex (ushr a s)) (if s < bits then natToHex (shr0 s) else "panic")
+  | "shl_vartime", [s] => both (optHex (ushlVartime a s)) (if s < bits then natToHex (shl0 s) else "panic")
+  | "shr_vartime", [s] => both (optHex (ushrVartime a s)) (if s < bits then natToHex (shr0 s) else "panic")
+  | "overflowing_shl", [s] | "tr_overflowing_shl_vartime", [s] =>
+    both (match overflowingShl a s with | some o => ctoptHex o | none => "panic")
+         (if s < bits then natToHex (shl0 s) else "none")
+  | "overflowing_shr", [s] | "tr_overflowing_shr_vartime", [s] =>
+    both (match overflowingShr a s with | some o => ctoptHex o | none => "panic")
+         (if s < bits then natToHex (shr0 s) else "none")
+  | "overflowing_shl_vartime", [s] =>
+    both (ctoptHex (overflowingShlVartime a s)) (if s < bits then natToHex (shl0 s) else "none")
+  | "overflowing_shr_vartime", [s] =>
+    both (ctoptHex (overflowingShrVartime a s)) (if s < bits then natToHex (shr0 s) else "none")
+  | "wrapping_shl", [s] | "tr_wrapping_shl", [s] | "tr_wrapping_shl_vartime", [s] =>
+    both (optHex (wrappingShlU a s)) (if s < bits then natToHex (shl0 s) else "0")
+  | "wrapping_shr", [s] | "tr_wrapping_shr", [s] | "tr_wrapping_shr_vartime", [s] =>
+    both (optHex (wrappingShrU a s)) (if s < bits then natToHex (shr0 s) else "0")
+  | "wrapping_shl_vartime", [s] =>
+    both (limbsHex (wrappingShlVartimeU a s)) (if s < bits then natToHex (shl0 s) else "0")
+  | "wrapping_shr_vartime", [s] =>
+    both (limbsHex (wrappingShrVartimeU a s)) (if s < bits then natToHex (shr0 s) else "0")
+  | "shl_wide", [hi, s] =>
+    let w := x + m * hi
+    both (match shlVartimeWide a (toLimbs n hi) s with
+          | none => "panic"
+          | some (r, c) => if c = WMAX then s!"{limbsHex r.1} {limbsHex r.2}" else "none")
+         (if s < 2 * bits then
+            let r := (w * 2 ^ s) % (m * m); s!"{natToHex (r % m)} {natToHex (r / m)}" else "none")
+  | "shr_wide", [hi, s] =>
+    let w := x + m * hi
+    both (match shrVartimeWide a (toLimbs n hi) s with
+          | none => "panic"
+          | some (r, c) => if c = WMAX then s!"{limbsHex r.1} {limbsHex r.2}" else "none")
+         (if s < 2 * bits then
+            let r := w / 2 ^ s; s!"{natToHex (r % m)} {natToHex (r / m)}" else "none")
+  | "bits", [] => both (decTok (ubits a)) (decTok (bitlen0 x))
+  | "bits_vartime", [] =>
+    both (match bitsVartime a with | some b => decTok b | none => "panic") (decTok (bitlen0 x))
+  | "leading_zeros", [] => both (decTok (leadingZeros a)) (decTok (bits - bitlen0 x))
+  | "leading_zeros_vartime", [] =>
+    both (match leadingZerosVartime a with | some b => decTok b | none => "panic") (decTok (bits - bitlen0 x))
+  | "trailing_zeros", [] => both (decTok (trailingZeros a)) (decTok (tz0 bits x))
+  | "trailing_zeros_vartime", [] => both (decTok (trailingZerosVartime a)) (decTok (tz0 bits x))
+  | "trailing_ones", [] => both (decTok (trailingOnes a)) (decTok (to0 bits x))
+  | "trailing_ones_vartime", [] => both (decTok (trailingOnesVartime a)) (decTok (to0 bits x))
+  | "bitops", [] =>
+    -- BitOps trait: bits_precision log2_bits bytes_precision bits bits_vartime lz lz_vartime tz tz_vartime to to_vartime
+    let l1 := s!"{bits} {bitlen0 bits - 1} {8 * n} {ubits a} {(bitsVartime a).getD 0} {leadingZeros a} {(leadingZerosVartime a).getD 0} {trailingZeros a} {trailingZerosVartime a} {trailingOnes a} {trailingOnesVartime a}"
+    let b := bitlen0 x
+    let l0 := s!"{bits} {bitlen0 bits - 1} {8 * n} {b} {b} {bits - b} {bits - b} {tz0 bits x} {tz0 bits x} {to0 bits x} {to0 bits x}"
+    both l1 l0
+  | "bit", [i] | "tr_bit", [i] => both (choiceTok (bitCt a i)) (bitTok (x.testBit i))
+  | "bit_vartime", [i] | "tr_bit_vartime", [i] => both (bitTok (bitVartime a i)) (bitTok (x.testBit i))
+  | "set_bit", [i, v] =>
+    let r0 := if i < bits then (if v = 1 then x ||| 2 ^ i else x - (if x.testBit i then 2 ^ i else 0)) else x
+    both (limbsHex (setBit a i (if v = 1 then WMAX else 0))) (natToHex r0)
+  | "set_bit_vartime", [i, v] =>
+    -- property: constant-time and vartime variants return identical results
+    let r0 := if i < bits then (if v = 1 then x ||| 2 ^ i else x - (if x.testBit i then 2 ^ i else 0)) else x
+    both (optHex (setBitVartime a i (v = 1))) (natToHex r0)
+  | "and", [y] => both (limbsHex (ubitand a (toLimbs n y))) (natToHex (x &&& y))
+  | "or", [y] => both (limbsHex (ubitor a (toLimbs n y))) (natToHex (x ||| y))
+  | "xor", [y] => both (limbsHex (ubitxor a (toLimbs n y))) (natToHex (x ^^^ y))
+  | "not", [] => both (limbsHex (unot a)) (natToHex (m - 1 - x))
+  | "and_limb", [l] =>
+    both (limbsHex (ubitandLimb a l)) (natToHex (x &&& (l * ((m - 1) / (B - 1)))))
+  | _, _ => none
+
+/-- `c05.i.*`: `Int<n>` given by its two's complement limbs -/
+def intOp (op : String) (n x : Nat) (rest : List Nat) : Option String :=
+  let a := toLimbs n x
+  let bits := 64 * n
+  let m := 2 ^ bits
+  let v := sval n x
+  let shr0 (s : Nat) := natToHex (ofInt n (v / ((2 ^ s : Nat) : Int)))
+  let fill0 := if v < 0 then natToHex (m - 1) else "0"
+  let shl0 (s : Nat) := natToHex ((x * 2 ^ s) % m)
+  match op, rest with
+  | "shr", [s] | "op_shr", [s, _] => both (optHex (intShr a s)) (if s < bits then shr0 s else "panic")
+  | "shr_vartime", [s] => both (optHex (intShrVartime a s)) (if s < bits then shr0 s else "panic")
+  | "overflowing_shr", [s] | "tr_overflowing_shr_vartime", [s] =>
+    both (match intOverflowingShr a s with | some o => ctoptHex o | none => "panic")
+         (if s < bits then shr0 s else "none")
+  | "overflowing_shr_vartime", [s] =>
+    both (ctoptHex (intOverflowingShrVartime a s)) (if s < bits then shr0 s else "none")
+  | "wrapping_shr", [s] | "tr_wrapping_shr", [s] | "tr_wrapping_shr_vartime", [s] =>
+    both (optHex (intWrappingShr a s)) (if s < bits then shr0 s else fill0)
+  | "wrapping_shr_vartime", [s] =>
+    both (limbsHex (intWrappingShrVartime a s)) (if s < bits then shr0 s else fill0)
+  | "shl", [s] | "op_shl", [s, _] => both (optHex (ushl a s)) (if s < bits then shl0 s else "panic")
+  | "shl_vartime", [s] => both (optHex (ushlVartime a s)) (if s < bits then shl0 s else "panic")
+  | "overflowing_shl", [s] | "tr_overflowing_shl_vartime", [s] =>
+    both (match overflowingShl a s with | some o => ctoptHex o | none => "panic")
+         (if s < bits then shl0 s else "none")
+  | "overflowing_shl_vartime", [s] =>
+    both (ctoptHex (overflowingShlVartime a s)) (if s < bits then shl0 s else "none")
+  | "wrapping_shl", [s] | "tr_wrapping_shl", [s] | "tr_wrapping_shl_vartime", [s] =>
+    both (optHex (wrappingShlU a s)) (if s < bits then shl0 s else "0")
+  | "wrapping_shl_vartime", [s] =>
+    both (limbsHex (wrappingShlVartimeU a s)) (if s < bits then shl0 s else "0")
+  | _, _ => none
+
+def bhex (n : Nat) (v : Nat) : String := s!"{n}:{natToHex v}"
+def optB (o : Option (List Nat)) (onNone : String) : String :=
+  match o with
+  | some r => limbsHexLen r
+  | none => onNone
+
+/-- `c05.b.*`: `BoxedUint` with `n` limbs -/
+def boxedOp (op : String) (n x : Nat) (rest : List Nat) : Option String :=
+  let a := toLimbs n x
+  let bits := 64 * n
+  let m := 2 ^ bits
+  let shl0 (s : Nat) := bhex n ((x * 2 ^ s) % m)
+  let shr0 (s : Nat) := bhex n (x / 2 ^ s)
+  match op, rest with
+  | "shl", [s] | "op_shl", [s, _] => both (optB (boxedShl a s) "panic") (if s < bits then shl0 s else "panic")
+  | "shr", [s] | "op_shr", [s, _] => both (optB (boxedShr a s) "panic") (if s < bits then shr0 s else "panic")
+  | "overflowing_shl", [s] =>
+    both (match boxedOverflowingShl a s with | some o => s!"{limbsHexLen o.1} {bitTok o.2}" | none => "panic")
+         (if s < bits then s!"{shl0 s} 0" else s!"{bhex n 0} 1")
+  | "overflowing_shr", [s] =>
+    both (match boxedOverflowingShr a s with | some o => s!"{limbsHexLen o.1} {bitTok o.2}" | none => "panic")
+         (if s < bits then s!"{shr0 s} 0" else s!"{bhex n 0} 1")
+  | "tr_overflowing_shl_vartime", [s] =>
+    both (match boxedOverflowingShl a s with
+          | some o => if o.2 then "none" else limbsHexLen o.1 | none => "panic")
+         (if s < bits then shl0 s else "none")
+  | "tr_overflowing_shr_vartime", [s] =>
+    both (match boxedOverflowingShr a s with
+          | some o => if o.2 then "none" else limbsHexLen o.1 | none => "panic")
+         (if s < bits then shr0 s else "none")
+  | "wrapping_shl", [s] | "tr_wrapping_shl", [s] | "tr_wrapping_shl_vartime", [s] =>
+    both (match boxedOverflowingShl a s with | some o => limbsHexLen o.1 | none => "panic")
+         (if s < bits then shl0 s else bhex n 0)
+  | "wrapping_shr", [s] | "tr_wrapping_shr", [s] | "tr_wrapping_shr_vartime", [s] =>
+    both (match boxedOverflowingShr a s with | some o => limbsHexLen o.1 | none => "panic")
+         (if s < bits then shr0 s else bhex n 0)
+  | "shl_vartime", [s] => both (optB (boxedShlVartime a s) "none") (if s < bits then shl0 s else "none")
+  | "shr_vartime", [s] => both (optB (boxedShrVartime a s) "none") (if s < bits then shr0 s else "none")
+  | "wrapping_shl_vartime", [s] =>
+    both (limbsHexLen (boxedWrappingShlVartime a s)) (if s < bits then shl0 s else bhex n 0)
+  | "wrapping_shr_vartime", [s] =>
+    both (limbsHexLen (boxedWrappingShrVartime a s)) (if s < bits then shr0 s else bhex n 0)
+  | "bitops", [] =>
+    let l1 := s!"{bits} {bitlen0 bits - 1} {8 * n} {ubits a} {(bitsVartime a).getD 0} {leadingZeros a} {(leadingZerosVartime a).getD 0} {trailingZeros a} {trailingZerosVartime a} {trailingOnes a} {trailingOnesVartime a}"
+    let b := bitlen0 x
+    let l0 := s!"{bits} {bitlen0 bits - 1} {8 * n} {b} {b} {bits - b} {bits - b} {tz0 bits x} {tz0 bits x} {to0 bits x} {to0 bits x}"
+    both l1 l0
+  | "bits", [] => both (decTok (ubits a)) (decTok (bitlen0 x))
+  | "bits_vartime", [] =>
+    both (match bitsVartime a with | some b => decTok b | none => "panic") (decTok (bitlen0 x))
+  | "leading_zeros", [] => both (decTok (leadingZeros a)) (decTok (bits - bitlen0 x))
+  | "trailing_zeros", [] => both (decTok (trailingZeros a)) (decTok (tz0 bits x))
+  | "trailing_zeros_vartime", [] => both (decTok (trailingZerosVartime a)) (decTok (tz0 bits x))
+  | "trailing_ones", [] => both (decTok (trailingOnes a)) (decTok (to0 bits x))
+  | "trailing_ones_vartime", [] => both (decTok (trailingOnesVartime a)) (decTok (to0 bits x))
+  | "bit", [i] | "tr_bit", [i] => both (choiceTok (bitCt a i)) (bitTok (x.testBit i))
+  | "bit_vartime", [i] | "tr_bit_vartime", [i] => both (bitTok (bitVartime a i)) (bitTok (x.testBit i))
+  | "set_bit", [i, v] =>
+    let r0 := if i < bits then (if v = 1 then x ||| 2 ^ i else x - (if x.testBit i then 2 ^ i else 0)) else x
+    both (limbsHexLen (setBit a i (if v = 1 then WMAX else 0))) (bhex n r0)
+  | "set_bit_vartime", [i, v] =>
+    let r0 := if i < bits then (if v = 1 then x ||| 2 ^ i else x - (if x.testBit i then 2 ^ i else 0)) else x
+    both (optB (setBitVartime a i (v = 1)) "panic") (bhex n r0)
+  | "not", [] => both (limbsHexLen (unot a)) (bhex n (m - 1 - x))
+  | "and_limb", [l] =>
+    both (limbsHexLen (ubitandLimb a l)) (bhex n (x &&& (l * ((m - 1) / (B - 1)))))
+  | "and", [ny, y] => both (limbsHexLen (mapLimbs (· &&& ·) a (toLimbs ny y))) (bhex (max n ny) (x &&& y))
+  | "or", [ny, y] => both (limbsHexLen (mapLimbs (· ||| ·) a (toLimbs ny y))) (bhex (max n ny) (x ||| y))
+  | "xor", [ny, y] => both (limbsHexLen (mapLimbs (· ^^^ ·) a (toLimbs ny y))) (bhex (max n ny) (x ^^^ y))
+  | "or_assign", [ny, y, _] => both (limbsHex (orAssign a (toLimbs ny y))) (natToHex (x ||| y))
+  | _, _ => none
+
+/-- `c05.l.*`: a single `Limb` -/
+def limbOp (op : String) (x : Nat) (rest : List Nat) : Option String :=
+  match op, rest with
+  | "shl", [s] | "op_shl", [s, _] =>
+    both (match limbShl x s with | some r => natToHex r | none => "panic")
+         (if s < 64 then natToHex ((x * 2 ^ s) % B) else "panic")
+  | "shr", [s] | "op_shr", [s, _] =>
+    both (match limbShr x s with | some r => natToHex r | none => "panic")
+         (if s < 64 then natToHex (x / 2 ^ s) else "panic")
+  | "wrapping_shl", [s] => some (natToHex (wrappingShl x s))     -- num_traits: shift masked to 6 bits
+  | "wrapping_shr", [s] => some (natToHex (wrappingShr x s))
+  | "bits", [] => both (decTok (limbBits x)) (decTok (bitlen0 x))
+  | "leading_zeros", [] => both (decTok (wlz x)) (decTok (64 - bitlen0 x))
+  | "trailing_zeros", [] => both (decTok (wtz x)) (decTok (tz0 64 x))
+  | "trailing_ones", [] => both (decTok (wto x)) (decTok (to0 64 x))
+  | _, _ => none
+
+/-- crate-internal functions reached through hooks: `c05.hook.*` (no L0 of their own) -/
+def hookOp (op : String) (n x : Nat) (rest : List Nat) : Option String :=
+  let a := toLimbs n x
+  let m := 2 ^ (64 * n)
+  match op, rest with
+  | "shl_limb", [s] =>
+    let r := shlLimb a s
+    both s!"{limbsHex r.1} {natToHex r.2}" s!"{natToHex ((x * 2 ^ s) % m)} {natToHex ((x * 2 ^ s) / m)}"
+  | "shl1", [] =>
+    let r := overflowingShl1 a
+    both s!"{limbsHex r.1} {natToHex r.2}" s!"{natToHex ((x * 2) % m)} {natToHex ((x * 2) / m)}"
+  | "shr1", [] =>
+    let r := shr1WithCarry a
+    both s!"{limbsHex r.1} {choiceTok r.2}" s!"{natToHex (x / 2)} {x % 2}"
+  | "bshl_limb", [s] =>
+    let r := shlLimb a s
+    both s!"{limbsHexLen r.1} {natToHex r.2}" s!"{bhex n ((x * 2 ^ s) % m)} {natToHex ((x * 2 ^ s) / m)}"
+  | "bshl1", [] =>
+    let r := boxedShl1 a
+    both s!"{limbsHexLen r.1} {natToHex r.2}" s!"{bhex n ((x * 2) % m)} {natToHex ((x * 2) / m)}"
+  | "bshr1", [] => both (limbsHexLen (boxedShr1 a)) (bhex n (x / 2))
+  | _, _ => none
+
+/-- parse: first token decimal limb count, second hex value, then per-op tokens -/
+def parseRest (op : String) (toks : List String) : Option (List Nat) :=
+  -- which positions are hex values (all other numeric tokens are decimal)
+  let hexPos : List Nat :=
+    match op with
+    | "shl_wide" | "shr_wide" | "and" | "or" | "xor" | "and_limb" => [0]
+    | _ => []
+  let rec go (i : Nat) : List String → Option (List Nat)
+    | [] => some []
+    | t :: ts =>
+      match (if hexPos.contains i then hexToNat? t else t.toNat?), go (i + 1) ts with
+      | some v, some vs => some (v :: vs)
+      | _, _ => none
+  go 0 toks
+
+end D05
+
+open D05 in
 /-- operations of property C05 (op names start with `c05.`) -/
-def dispatchC05 : Dispatch := fun _ _ => none
+def dispatchC05 : Dispatch := fun op args =>
+  match op.splitOn "." with
+  | ["c05", "l", name] =>
+    match args with
+    | x :: rest =>
+      match hexToNat? x, parseRest name rest with
+      | some x, some r => limbOp name x r
+      | _, _ => badArgs
+    | _ => badArgs
+  | ["c05", "b", name] =>
+    match args with
+    | n :: x :: rest =>
+      -- boxed and/or/xor: `n x ny y`
+      let r := if name = "and" ∨ name = "or" ∨ name = "xor" ∨ name = "or_assign" then
+          match rest with
+          | [ny, y] => match ny.toNat?, hexToNat? y with
+            | some ny, some y => some [ny, y]
+            | _, _ => none
+          | [ny, y, f] => match ny.toNat?, hexToNat? y, f.toNat? with
+            | some ny, some y, some f => some [ny, y, f]
+            | _, _, _ => none
+          | _ => none
+        else parseRest name rest
+      match n.toNat?, hexToNat? x, r with
+      | some n, some x, some r => boxedOp name n x r
+      | _, _, _ => badArgs
+    | _ => badArgs
+  | ["c05", "hook", name] =>
+    match args with
+    | n :: x :: rest =>
+      match n.toNat?, hexToNat? x, parseRest name rest with
+      | some n, some x, some r => hookOp name n x r
+      | _, _, _ => badArgs
+    | _ => badArgs
+  | ["c05", kind, name] =>
+    match args with
+    | n :: x :: rest =>
+      match n.toNat?, hexToNat? x, parseRest name rest with
+      | some n, some x, some r =>
+        if kind = "u" then uintOp name n x r
+        else if kind = "i" then intOp name n x r
+        else none
+      | _, _, _ => badArgs
+    | _ => badArgs
+  | _ => none
 
 end CB
